@@ -493,7 +493,19 @@ func execStore(run *core.Run, p *plan) {
 				reached1, release1 := make(chan struct{}), make(chan struct{})
 				reached2, release2 := make(chan struct{}), make(chan struct{})
 				var once1, once2 sync.Once
+				guardIn := make(chan struct{})
+				var onceG sync.Once
 				verifhook.SetYield(func(ev string, args ...interface{}) {
+					if ev == "store.delete.guard.installed" {
+						// (fired on the store's per-shard goroutine; other clients'
+						// deletes concern other measurements)
+						if len(args) > 1 {
+							if names, ok := args[1].([]string); ok && len(names) == 1 && names[0] == "wm" {
+								onceG.Do(func() { close(guardIn) })
+							}
+						}
+						return
+					}
 					if ev != "shard.fields.validated" {
 						return
 					}
@@ -510,7 +522,15 @@ func execStore(run *core.Run, p *plan) {
 				go func() { g1.Store(curGoroutine()); done1 <- sim.Store.WriteToShard(id, []models.Point{p1}) }()
 				<-reached1
 				go func() { doneD <- sim.DeleteWhere([]string{"wm"}, fmt.Sprintf("c = '%s'", vic)) }()
-				pause(400) // the delete installs its guard and waits for W1
+				// the delete installs its guard and then waits for W1
+				for i := 0; i < 20000; i++ {
+					select {
+					case <-guardIn:
+						i = 20000
+					default:
+						runtime.Gosched()
+					}
+				}
 				go func() { g2.Store(curGoroutine()); done2 <- sim.Store.WriteToShard(id, []models.Point{p2}) }()
 				parked2 := false
 				for i := 0; i < 400 && !parked2; i++ {
